@@ -3,6 +3,7 @@ import Req.Client.Scope
 import Req.Client.Heap
 import Req.Client.ShareJudge
 import Req.Client.ValuesHeap
+import Req.Client.ReqTime
 /-! Driver lanes of C19.
 
 `c19prog <program>` — run an API program on the value model (`Scope.runScope`) and print the
@@ -210,7 +211,90 @@ def laneVals : List String → String
     | _, _, _ => "bad-op"
   | _ => "bad-op"
 
+/-! `c19cookies <next> <layout> <ops>` — lane `reqtime`, cookie slices at request time (`ReqTime` part 1).
+`layout` as for `c19vals` (one key per cookie slice: clients 0.., requests 100..). `ops` joined by `;`:
+`C<c>:<vs>` SetCommonCookies, `R<r>:<vs>` Request.SetCookies, `X<c>` ClearCookies, `S<r>:<c>:<attempt>` one
+attempt of request `r` of client `c`. Answer: the judge's verdict on the layout, the slices the value
+model ends with, and what every attempt sent. -/
+
+def parseROp (s : String) : Option Req.ReqTime.ROp :=
+  match s.toList with
+  | 'C' :: rest =>
+    match (String.ofList rest).splitOn ":" with
+    | [c, vs] => do pure (.setCommon (← c.toNat?) (← natList vs))
+    | _ => none
+  | 'R' :: rest =>
+    match (String.ofList rest).splitOn ":" with
+    | [r, vs] => do pure (.setReq (← r.toNat?) (← natList vs))
+    | _ => none
+  | 'X' :: rest => (String.ofList rest).toNat?.map Req.ReqTime.ROp.clear
+  | 'S' :: rest =>
+    match (String.ofList rest).splitOn ":" with
+    | [r, c, a] => do pure (.send (← r.toNat?) (← c.toNat?) (← a.toNat?))
+    | _ => none
+  | _ => none
+
+def laneCookies : List String → String
+  | [next, layout, ops] =>
+    match next.toNat?, (if layout == "_" then some [] else (layout.splitOn ",").mapM parseEntry),
+          (if ops == "_" then some [] else (ops.splitOn ";").mapM parseROp) with
+    | some n, some ents, some rops =>
+      let m : Req.ValuesHeap.MapS := ents.map (·.1)
+      let initial : AMap := ents.map fun e => (e.1.1, e.2)
+      let sep := Req.ValuesHeap.sepB n m
+      let sent := Req.ReqTime.sentLog initial rops
+      "sep=" ++ (if sep then "1" else "0") ++ ";" ++ showKvs (sortKeys ((Req.ReqTime.runRA initial rops).filter fun e => !e.2.isEmpty)) ++
+        ";sent=" ++ (if sent.isEmpty then "_" else "|".intercalate (sent.map fun e => toString e.1 ++ ":" ++ showList e.2))
+    | _, _, _ => "bad-op"
+  | _ => "bad-op"
+
+/-! `c19connect <nclients> <ops>` — lane `reqtime`, the CONNECT header (`ReqTime` part 2). `ops` joined by `;`:
+`H<c>:<b>:<content>` SetProxyConnectHeader (map object `b`; content `k=vs+k=vs`, `_` = empty map),
+`K<a>:<b>` b := a.Clone(), `P<c>:<auth|->` SetProxyURL with / without credentials, `D<c>` a CONNECT by `c`.
+Answer: every CONNECT header sent and, per client, the content of its ProxyConnectHeader at the end. -/
+
+def parseHdrContent (s : String) : Option AMap :=
+  if s == "_" then some [] else (s.splitOn "+").mapM fun e =>
+    match e.splitOn "=" with
+    | [k, vs] => do pure (← k.toNat?, ← natList vs)
+    | _ => none
+
+def parsePOp (s : String) : Option Req.ReqTime.POp :=
+  match s.toList with
+  | 'H' :: rest =>
+    match (String.ofList rest).splitOn ":" with
+    | [c, b, content] => do pure (.setHdr (← c.toNat?) (← b.toNat?) (← parseHdrContent content))
+    | _ => none
+  | 'K' :: rest =>
+    match (String.ofList rest).splitOn ":" with
+    | [a, b] => do pure (.clone (← a.toNat?) (← b.toNat?))
+    | _ => none
+  | 'P' :: rest =>
+    match (String.ofList rest).splitOn ":" with
+    | [c, "-"] => do pure (.setProxy (← c.toNat?) none)
+    | [c, a] => do pure (.setProxy (← c.toNat?) (some (← a.toNat?)))
+    | _ => none
+  | 'D' :: rest => (String.ofList rest).toNat?.map Req.ReqTime.POp.dial
+  | _ => none
+
+def laneConnect : List String → String
+  | [n, ops] =>
+    match n.toNat?, (if ops == "_" then some [] else (ops.splitOn ";").mapM parsePOp) with
+    | some n, some pops =>
+      let s := Req.ReqTime.runP false Req.ReqTime.initP pops
+      let showH (h : AMap) : String := "+".intercalate ((sortKeys h).map fun e => toString e.1 ++ "=" ++ showList e.2)
+      let log := s.log.map fun e => toString e.1 ++ "/" ++ showH e.2
+      let boxes := (List.range n).map fun c =>
+        match (s.clients c).box with
+        | some b => toString c ++ "/" ++ showH (s.boxes b)
+        | none => toString c ++ "/nil"
+      "log=" ++ "|".intercalate log ++ ";hdr=" ++ "|".intercalate boxes
+    | _, _ => "bad-op"
+  | _ => "bad-op"
+
 def lanes : List (String × (List String → String)) := [
+  ("c19cookies", laneCookies),
+  ("c19connect", laneConnect),
   ("c19vals", laneVals),
   ("c19prog", laneProg),
   ("c19heap", laneHeap),
